@@ -387,7 +387,8 @@ impl Inv {
         let (_, edges) = self.source();
         let listed: Vec<u8> = self.nodes.iter().map(|n| n.0).collect();
         if let Some(bad) = edges.iter().find(|e| !listed.contains(&e.1)) {
-            return format!("Exp::Panic(\"\\\"{}\\\"\")", bad.1);
+            // the panic must name the unlisted key; how the key is quoted is the library's choice
+            return format!("Exp::Panic(\"{}\")", bad.1);
         }
         let has_n = self.form == 1 || self.form == 3;
         let mut nodes = Vec::new();
